@@ -11,9 +11,9 @@ TRUST = "trusted: z3, go/ssa (x/tools v0.29.0) and the executors (each sat is re
 
 claimed = {
  "C07": ("E3", "§5.7, §10.6", "the asynchronous two-stage pipeline as a partial-order SMT problem over events extracted from the real SSA of findStructuralIndices (producer) and of the consumer closure with the real updateChar/peekSize: (a) no ring slot is refilled before the consumer's last read of its previous occupant, (b) k-th received = k-th sent, (c) every execution terminates for success, stage-1 failure at any buffer, stage-2 failure at any index (before/after the terminator), under every schedule; G2: for every message length up to the async threshold the synchronous path's buffers + terminator fit the channel",
-          "<= 20 (quick) / 40 (thorough) index buffers; constants (16 slots, capacity, threshold, limit) read from the source on every run; stage-1 kernel and unifiedMachine enter as contracts (arbitrary lengths / may fail after any updateChar call; side conditions on the SSA checked per run); schedule counterexamples are forced natively through an instrumented overlay; trusted: z3, go/ssa, the encoders"),
+          "<= 20 (quick) / 40 (thorough) index buffers; constants (16 slots, capacity, threshold, limit) read from the source on every run; stage-1 kernel and unifiedMachine enter as contracts (arbitrary lengths / may fail after any updateChar call; side conditions on the SSA checked per run); the producer loop uses a checked payload abstraction and loop-head widening (over-approximations); schedule counterexamples are forced natively through an instrumented overlay and one benign schedule is forced natively per run; trusted: z3, go/ssa, the encoders"),
  "C09": ("E3", "§5.9, §10.6", "ParseNDStream from its real closures (reader, forwarder, per-chunk worker) over an abstract reader (symbolic bytes, every fragmentation, fault at any offset): chunks partition the consumed prefix, every chunk ends after an LF or at EOF/fault, no blank-only chunk reaches the parser on a well-formed stream, results are forwarded in queue order for every completion order of the workers then the EOF/reader error then close, termination, no pooled buffer reused while referenced",
-          "streams <= 8 bytes with tmpSize scaled 10 MiB -> 4 (quick) / larger in thorough, <= 4 chunks for the ordering lemmas, GOMAXPROCS 1..16; bufio.Reader, sync.Pool and parseMessage enter as contracts (this is the weakest claim of the set: ~100 lines of real code inside four contracts); trusted: z3, go/ssa, the encoders"),
+          "ASCII streams <= 8 (quick) / 9 (thorough) bytes with tmpSize scaled 10 MiB -> 4, <= 4 / 6 chunks for the ordering lemmas, GOMAXPROCS 1..16; bufio.Reader, bytes.TrimSpace (length only), sync.Pool (havoc mode in the data lemmas) and parseMessage enter as contracts (this is the weakest claim of the set: ~100 lines of real code inside four contracts); trusted: z3, go/ssa, the encoders"),
  "C01": ("E1+E2", "§5.1, §10.4", "stage 1 = REF-SCAN on a symbolic 64-byte block with arbitrary carry for both kernel families and the slice drivers (E1: A1-A7), parseNumber = RFC 8259 number DFA (P2), stage 2 = general reference parser on every layout of <= 3 structural tokens with symbolic bytes plus valid skeletons up to 11 tokens with each token free in turn (P3), the whole synchronous parseMessage incl. the Go stage-1 driver, multi-block messages and index-buffer hand-over (U1)",
           "token/byte bounds as in evidence; escapes inside strings are decided by the E1 string lemmas (C04) and excluded from P3/U1; stage-1 kernel, number parser and string decoder enter P3/U1 as the contracts their own lemmas establish; composition over blocks by induction (argued); " + TRUST),
  "C05": ("E1+E2", "§5.5", "the memory-safety obligations of every assembly lemma (loads/stores inside caller-provided extents, index-buffer store bound), and the panic / bounds / unwinding / blocks-forever obligations of parseNumber, unifiedMachine and the whole synchronous parseMessage (channel empty on every exit) on all inputs within the bounds",
